@@ -674,6 +674,10 @@ func (d *drv) violClass(part string, kind string, sb *sandbox, cwdReal string, r
 	}
 	c := "rfl:" + kind + ":root=" + rc.ID + ":ctx=" + cx.ID
 	if kind == "outside-served" || kind == "outside-bytes-with-error" {
+		// An escape is identified by the root spelling and the way out, not by
+		// the loading-file context (keeps the class count small: the core stops
+		// a run once 40 cases are recorded).
+		c = "rfl:" + kind + ":root=" + rc.ID
 		raw := joinRaw(L, loc)
 		if !strings.HasPrefix(raw, "/") {
 			raw = cwdReal + "/" + raw
